@@ -297,7 +297,38 @@ class PipeSock(object):
         self.peer = None
         self.closed = False
 
+    def _fault(self, op, ready=True):
+        """transport fault plan (FaultPlan installed as wire.mitm): the k-th
+        send / data-bearing recv of one side fails; from then on that side's
+        transport is dead (buffered input is still readable, then ECONNRESET)
+        and the peer reads EOF once its inbox is drained"""
+        plan = getattr(self.wire.mitm, "fault", None)
+        if plan is None or plan["who"] != self.who:
+            return None
+        if plan.get("fired"):
+            if op == "send" or len(self.inp) == 0:
+                raise socket.error(plan["errno"], "transport is dead")
+            return None
+        if plan["op"] != op or not ready:
+            return None
+        n = plan.setdefault("count", 0)
+        plan["count"] = n + 1
+        if n != plan["k"]:
+            return None
+        plan["fired"] = True
+        self.closed = True
+        if plan["mode"] == "eof":
+            self.inp = newbuf()
+            plan["errno"] = errno.EPIPE
+            return "eof"
+        plan["errno"] = {"reset": errno.ECONNRESET,
+                         "epipe": errno.EPIPE}[plan["mode"]]
+        if op == "recv":
+            self.inp = newbuf()
+        raise socket.error(plan["errno"], "injected transport fault")
+
     def send(self, d):
+        self._fault("send")
         self.wire.log.append((self.who, list(d)))
         n = len(d)
         self.wire.track(self.who, d)
@@ -315,6 +346,8 @@ class PipeSock(object):
         self.send(d)
 
     def recv(self, n):
+        if self._fault("recv", ready=len(self.inp) > 0) == "eof":
+            return newbuf()
         if len(self.inp) == 0:
             if self.peer.closed:
                 return newbuf()
@@ -334,6 +367,22 @@ class PipeSock(object):
 
     def gettimeout(self):
         return None
+
+
+class FaultPlan(object):
+    """pass-through 'attacker' that carries a transport fault plan: the k-th
+    (0-based) `op` call (send, or recv with data waiting) of endpoint `who`
+    fails with `mode`: reset (ECONNRESET), epipe (EPIPE) or, for recv, eof"""
+
+    def __init__(self, who, op, k, mode):
+        self.fault = dict(who=who, op=op, k=k, mode=mode)
+
+    def __call__(self, who, off, data):
+        return data
+
+    @property
+    def fired(self):
+        return bool(self.fault.get("fired"))
 
 
 class PairX509(X509):
